@@ -50,6 +50,10 @@ def gen_case(r, hashseed):
   requested = r.sample(idb, min(k, len(idb)))
   if main not in requested and r.random() < 0.7:
     requested[0] = main
+  if has_functor and r.random() < 0.6:
+    fname = program['functors'][0]['name']
+    if fname not in requested:
+      requested.append(fname)
   d_eff = effective_depth(program)
   deep = d_eff > 20 or iterative_forced
   db = r.choice(['memory', 'file', 'file']) if deep else r.choice(['memory', 'memory', 'file'])
@@ -383,14 +387,39 @@ def convert(res):
   return res
 
 
+CURATED = ['curated:case-variant-names-in-iterative-plan']
+
+
+def curated_case(key):
+  """A fixed input found by a sub-agent's exploration, not by the generator: two members of an
+  iteratively unfolded component whose names differ only in letter case (their generation
+  tables collide in SQLite). Reported as a known finding, see known_findings.json."""
+  C, V, rule = gen.C, gen.V, gen.rule
+  preds = [
+      {'name': 'E', 'arity': 2, 'kind': 'edb', 'rows': [[i, i + 1] for i in range(60)], 'rules': []},
+      {'name': 'AB', 'arity': 1, 'kind': 'distinct', 'rules': [
+          rule([C(0)]), rule([V('y')], [['Ab', [V('x')], None], ['E', [V('x'), V('y')], None]])]},
+      {'name': 'Ab', 'arity': 1, 'kind': 'distinct', 'rules': [
+          rule([V('x')], [['AB', [V('x')], None]]), rule([C(100)])]}]
+  program = {'preds': preds, 'ground': [], 'recursive': {'AB': 30}, 'attach': None, 'noise': []}
+  return {'hashseed': 0, 'program': program, 'family': 'curated', 'main': 'AB', 'requested': ['AB'],
+          'db': 'memory', 'schedule': 'fresh', 'path': 'concertina', 'stale_program': None, 'faults': [],
+          'curated': key}
+
+
 def run_case(case, scratch):
   vs, _ = run_case_full(case, scratch)
+  if case.get('curated'):
+    # a fixed input is one finding whatever shape its symptoms take
+    return [{'class': 'curated', 'key': case['curated'], 'message': v['message']} for v in vs[:1]]
   return vs
 
 
 # ------------------------------------------------------------------ shrinking
 
 def shrink(case):
+  if case.get('curated'):
+    return
   if case.get('faults'):
     yield dict(case, faults=[], schedule='fresh')
   if case.get('stale_program') is not None:
@@ -504,6 +533,13 @@ def run_batch(seed, batch, tier, scratch):
         v = dict(v)
         v['case'] = case
         S.violations.append(v)
+  if batch == 0:
+    for key in CURATED:
+      vs = run_case(curated_case(key), scratch)
+      S.counters['curated_cases'] += 1
+      log.add('curated', key, not vs)
+      for v in vs[:1]:
+        S.violations.append(dict(v, case=curated_case(key)))
   S.digests.append(log.hexdigest())
   return S
 
